@@ -196,6 +196,21 @@ def _check_euler(res, layer, case, what, cb, names, c0, f, upper, params=None):
     except Exception as e:
         _viol(res, "C06|%s|max_euler_step_cb|raises" % layer, "%s: max_euler_step_cb(0, %s%s) raised %s: %s" % (what, c0, ", %s" % params if params else "", type(e).__name__, e), case, "EXC %s" % type(e).__name__, "a step size")
         return "EXC"
+    # the same state handed over in other mapping types (an OrderedDict in reversed order; a defaultdict that supplies the
+    # LAST species' concentration through its default factory): the advertised step is the same
+    try:
+        import collections
+
+        variants = [collections.OrderedDict((k, c0[k]) for k in reversed(list(c0)))]
+        last = list(c0)[-1]
+        dd = collections.defaultdict(lambda: c0[last])
+        dd.update({k: v for k, v in c0.items() if k != last})
+        variants.append(dd)
+        hs = [float(cb(0.0, v, dict(params)) if params is not None else cb(0.0, v)) for v in variants]
+    except Exception as e:
+        hs = ["EXC %s" % type(e).__name__]
+    if any(isinstance(x, str) or abs(x - h) > 1e-12 * max(abs(h), 1e-300) for x in hs):
+        _viol(res, "C06|%s|max_euler_step_cb|depends-on-the-mapping-type-of-the-state" % layer, "%s: max_euler_step_cb(0, %s) = %r for a dict, %r for the same state as reversed OrderedDict / defaultdict" % (what, c0, h, hs), case, hs, h)
     # model classification of what limits the step
     dep = min([-c0[s] / f[s] for s in names if f[s] < 0] or [float("inf")])
     up = min([(upper[s] - c0[s]) / f[s] for s in names if f[s] > 0] or [float("inf")])
